@@ -60,6 +60,7 @@ type effects struct {
 // methodEffects explores one method and classifies what it writes.
 func methodEffects(c *core.Ctx, rule string, fn *ssa.Function) (effects, bool) {
 	var ef effects
+	ctorOnlyProg = c.P
 	x := newExec(c)
 	// boolean switches stay path-sensitive (which map is written depends on them); everything else is merged
 	recv := ""
@@ -225,7 +226,21 @@ func configDerived(x *absint.Exec, v absint.Value, recv string, depth int) bool 
 		return true
 	case absint.Sym:
 		loc := locOf(x, t)
-		return recv != "" && (strings.HasPrefix(loc, "L:"+recv+"·config·") || strings.HasPrefix(loc, "L:"+recv+"·config["))
+		if recv != "" && (strings.HasPrefix(loc, "L:"+recv+"·config·") || strings.HasPrefix(loc, "L:"+recv+"·config[")) {
+			return true
+		}
+		// a field of a helper object the reporter holds (r.matcher.pattern) that is only ever set where such an
+		// object is made: fixed for the whole walk like the configuration it was taken from
+		if recv != "" && strings.HasPrefix(loc, "L:§@") && ctorOnlyProg != nil {
+			rest := strings.TrimPrefix(loc, "L:§@")
+			if i := strings.Index(rest, "·"); i > 0 && !strings.ContainsAny(rest[i+len("·"):], "·[") {
+				holder := x.LocOf[rest[:i]]
+				if strings.HasPrefix(holder, "L:"+recv+"·") && setOnlyAtConstruction(ctorOnlyProg, rest[i+len("·"):]) {
+					return true
+				}
+			}
+		}
+		return false
 	case *absint.Iface:
 		return configDerived(x, t.V, recv, depth+1)
 	case *absint.Tuple:
@@ -581,6 +596,8 @@ func ruleEmptinessTests(c *core.Ctx, rule string) {
 				okTest := (v == 0 && (op == token.GTR || op == token.EQL || op == token.NEQ || op == token.LEQ)) || (v == 1 && (op == token.LSS || op == token.GEQ))
 				if okTest {
 					c.Discharge(rule, fname, "len(acc) test", pos, "an emptiness test")
+				} else if leadsToMadeError(bo) {
+					c.Discharge(rule, fname, "len(acc) test", pos, "an assertion: one side of the test does nothing but return an error made on the spot")
 				} else {
 					c.Violate(rule, fname, "len(acc) test", pos, fmt.Sprintf("the size of the accumulator is tested with %s %d, which is not an emptiness test: a day or period that contributed exactly one element is treated like an empty one (or the reverse)", op, v), nil)
 				}
@@ -770,4 +787,57 @@ func shortKey(k string) string {
 		return k[:80] + "…"
 	}
 	return k
+}
+
+// leadsToMadeError: the comparison decides a branch one side of which only returns an error made on the spot
+// (fmt.Errorf, errors.New): an internal assertion, not a decision about what is shown.
+func leadsToMadeError(bo *ssa.BinOp) bool {
+	if bo.Referrers() == nil {
+		return false
+	}
+	for _, r := range *bo.Referrers() {
+		iff, ok := r.(*ssa.If)
+		if !ok {
+			continue
+		}
+		for _, s := range iff.Block().Succs {
+			if ret, ok := soleReturn(s); ok && len(ret.Results) > 0 {
+				res := ret.Results[len(ret.Results)-1]
+				if isErrorType(res.Type()) && madeError(res) {
+					return true
+				}
+			}
+		}
+	}
+	return false
+}
+
+var ctorOnlyProg *core.Program
+
+// setOnlyAtConstruction: every store into a field called name of a structure of the command packages goes into a
+// structure that is being made (a composite literal): the field never changes afterwards.
+func setOnlyAtConstruction(p *core.Program, name string) bool {
+	n := 0
+	for _, fn := range p.Funcs {
+		if !strings.HasPrefix(core.FnPkgPath(fn), core.CmdPath) {
+			continue
+		}
+		for _, b := range fn.Blocks {
+			for _, in := range b.Instrs {
+				st, ok := in.(*ssa.Store)
+				if !ok {
+					continue
+				}
+				fa, ok := st.Addr.(*ssa.FieldAddr)
+				if !ok || fieldName(fa.X.Type(), fa.Field) != name {
+					continue
+				}
+				n++
+				if _, fresh := fa.X.(*ssa.Alloc); !fresh {
+					return false
+				}
+			}
+		}
+	}
+	return n > 0
 }
